@@ -63,3 +63,6 @@ SPEC = {
         "IPv4 / TCP decoders as repaired by c999f3a6; witnesses for the tree before: C18_*_accepts_reference_orig_refuted",
     ],
 }
+
+import vlib  # noqa: E402
+vlib.merge_part(SPEC, "C18gen_part")
